@@ -244,7 +244,7 @@ pub fn run(cx: &mut Ctx) {
     if let Some(facts) = &facts {
         parser_inventory(cx, facts);
         recursion_inventory(cx, facts);
-        units::position_inventories(cx, "C03.U2", facts, true);
+        units::dimension_discipline(cx, "C03.U2", facts);
     }
     crate::rules::lexer_rules::byte_accounting(cx, "C03.N2");
     discharge_some(cx);
@@ -252,6 +252,7 @@ pub fn run(cx: &mut Ctx) {
     action_unwraps(cx);
     nullable_ranges(cx);
     progress(cx);
+    fn_summaries(cx);
     units::error_offsets(cx, "C03.E2");
     if let Ok(p) = sm::load(&cx.repo, "parser/src/parser.rs") {
         cx.rule("C03.E1", "parse_error_from_lalrpop maps every LALRPOP error variant, without a wildcard arm, to a ParseError whose offset is that variant's own location / token start");
@@ -931,7 +932,7 @@ fn nullable_ranges(cx: &mut Ctx) {
 // ---------------------------------------------------------------- progress
 
 const CONSUMERS: &[&str] = &[
-    "next_char", "eat_single_char", "lex_identifier", "lex_number", "lex_string", "lex_number_radix", "lex_normal_number",
+    "next_char", "eat_single_char", "lex_identifier", "lex_number", "lex_string", "lex_normal_number",
     "parse_escaped_char", "parse_formatted_value", "parse_octet", "parse_unicode_literal", "parse_unicode_name",
 ];
 /// conditional consumers, with the reason they consume in the context they are used
@@ -945,24 +946,36 @@ const CONDITIONAL: &[(&str, &str)] = &[
     ("next", "pulls the next token / character of a finite stream"),
 ];
 
-fn path_has_progress(stmts: &[syn::Stmt]) -> Vec<(bool, String)> {
-    // enumerate paths to the end of the body (back edge) or `continue`; each path: (progress?, description)
-    fn go(stmts: &[syn::Stmt], acc: bool, desc: String, out: &mut Vec<(bool, String)>) -> Vec<(bool, String)> {
-        // returns the set of (progress, desc) states that fall through the end of `stmts`
+/// Path enumerator. Loop mode: paths of one iteration (to the back edge or a `continue`); function mode: paths to a
+/// normal return (fall-through, `return Ok(..)`, `return x`), `return Err(..)` / `Err(..)?` diverge.
+/// Nested loops are opaque: a `while` credits only its condition, `for` nothing (zero iterations are possible),
+/// `loop` the paths of its first iteration.
+struct Paths<'a> {
+    fn_mode: bool,
+    extra: &'a [&'a str],
+    out: Vec<(bool, String)>,
+}
+
+impl<'a> Paths<'a> {
+    fn go(&mut self, stmts: &[syn::Stmt], acc: bool, desc: String) -> Vec<(bool, String)> {
         let mut states = vec![(acc, desc)];
         for s in stmts {
             let mut next = vec![];
             for (p, d) in states {
                 match s {
                     syn::Stmt::Local(l) => {
-                        let mut p2 = p;
                         if let Some(i) = &l.init {
-                            p2 |= expr_progress(&i.expr);
-                            // let Some(c) = self.next_char() else { return .. };
+                            let mut res = self.go_expr(&i.expr, p, d);
+                            if let Some((_, div)) = &i.diverge {
+                                // let-else: the else block diverges; in function mode a `return Ok` there is a path end
+                                let _ = self.go_expr(div, p, "let-else".into());
+                            }
+                            next.append(&mut res);
+                        } else {
+                            next.push((p, d));
                         }
-                        next.push((p2, d));
                     }
-                    syn::Stmt::Expr(e, _) => next.extend(go_expr(e, p, d, out)),
+                    syn::Stmt::Expr(e, _) => next.extend(self.go_expr(e, p, d)),
                     _ => next.push((p, d)),
                 }
             }
@@ -970,70 +983,215 @@ fn path_has_progress(stmts: &[syn::Stmt]) -> Vec<(bool, String)> {
         }
         states
     }
-    fn expr_progress(e: &syn::Expr) -> bool {
+    fn expr_progress(&self, e: &syn::Expr) -> bool {
         let mut found = false;
+        let extra = self.extra;
         sm::for_each_expr(e, |x| {
             if let syn::Expr::MethodCall(mc) = x {
                 let m = mc.method.to_string();
                 let recv = sm::tsc(&mc.receiver);
-                if (recv == "self" && (CONSUMERS.contains(&m.as_str()) || CONDITIONAL.iter().any(|c| c.0 == m))) || (recv == "self.underlying" && (m == "peek" || m == "next")) || (recv == "self.indentations" && m == "pop") || (recv == "self.chars" && m == "next") {
+                if (recv == "self" && (CONSUMERS.contains(&m.as_str()) || CONDITIONAL.iter().any(|c| c.0 == m) || extra.contains(&m.as_str())))
+                    || (recv == "self.underlying" && (m == "peek" || m == "next"))
+                    || (recv == "self.indentations" && m == "pop")
+                    || (recv == "self.chars" && m == "next")
+                {
                     found = true;
                 }
             }
         });
         found
     }
-    fn diverges(e: &syn::Expr) -> bool {
+    fn diverges(&self, e: &syn::Expr) -> bool {
         match e {
-            syn::Expr::Return(_) | syn::Expr::Break(_) => true,
-            syn::Expr::Block(b) => b.block.stmts.last().map_or(false, |s| matches!(s, syn::Stmt::Expr(x, _) if diverges(x))),
+            syn::Expr::Return(r) => !self.fn_mode || r.expr.as_ref().map_or(false, |x| sm::tsc(x).starts_with("Err(")),
+            syn::Expr::Break(_) => true,
+            syn::Expr::Block(b) => b.block.stmts.last().map_or(false, |s| matches!(s, syn::Stmt::Expr(x, _) if self.diverges(x))),
             syn::Expr::Macro(m) => m.mac.path.is_ident("unreachable") || m.mac.path.is_ident("panic"),
             syn::Expr::Try(t) => matches!(&*t.expr, syn::Expr::Call(c) if sm::tsc(&c.func) == "Err"),
             _ => false,
         }
     }
-    fn go_expr(e: &syn::Expr, p: bool, d: String, out: &mut Vec<(bool, String)>) -> Vec<(bool, String)> {
+    fn go_expr(&mut self, e: &syn::Expr, p: bool, d: String) -> Vec<(bool, String)> {
         match e {
             syn::Expr::If(i) => {
                 // `if let Some(c) = self.take_number(..)`: progress only in the then-branch
-                let cond_prog = expr_progress(&i.cond);
+                let cond_prog = self.expr_progress(&i.cond);
                 let cond_is_conditional = sm::tsc(&i.cond).contains("self.take_number(");
                 let then_p = p || cond_prog;
                 let else_p = if cond_is_conditional { p } else { p || cond_prog };
-                let mut res = go(&i.then_branch.stmts, then_p, format!("{}/if({})", d, sm::tsc(&i.cond).chars().take(30).collect::<String>()), out);
+                let mut res = self.go(&i.then_branch.stmts, then_p, format!("{}/if({})", d, sm::tsc(&i.cond).chars().take(30).collect::<String>()));
                 match &i.else_branch {
-                    Some((_, el)) => res.extend(go_expr(el, else_p, format!("{}/else", d), out)),
+                    Some((_, el)) => res.extend(self.go_expr(el, else_p, format!("{}/else", d))),
                     None => res.push((else_p, format!("{}/!if", d))),
                 }
                 res
             }
             syn::Expr::Match(m) => {
-                let scrut_p = p || expr_progress(&m.expr);
+                let scrut_p = p || self.expr_progress(&m.expr);
                 let mut res = vec![];
                 for arm in &m.arms {
                     let ad = format!("{}/{}", d, sm::tsc(&arm.pat).chars().take(24).collect::<String>());
-                    res.extend(go_expr(&arm.body, scrut_p, ad, out));
+                    res.extend(self.go_expr(&arm.body, scrut_p, ad));
                 }
                 res
             }
-            syn::Expr::Block(b) => go(&b.block.stmts, p, d, out),
+            syn::Expr::Block(b) => self.go(&b.block.stmts, p, d),
             syn::Expr::Continue(_) => {
-                out.push((p, format!("{}/continue", d)));
+                self.out.push((p, format!("{}/continue", d)));
                 vec![]
             }
-            syn::Expr::Return(_) | syn::Expr::Break(_) => vec![],
+            syn::Expr::Return(r) => {
+                if !self.diverges(e) {
+                    let pr = p || r.expr.as_ref().map_or(false, |x| self.expr_progress(x));
+                    self.out.push((pr, format!("{}/return", d)));
+                }
+                vec![]
+            }
+            syn::Expr::Break(_) => vec![],
+            syn::Expr::While(w) => vec![(p || self.expr_progress(&w.cond), d)],
+            syn::Expr::ForLoop(f) => vec![(p || self.expr_progress(&f.expr), d)],
+            syn::Expr::Loop(l) => {
+                // at least one iteration runs: a sub-enumeration of its body; the loop is left through `break`
+                // (not tracked) — credit progress only if every iteration path has it
+                let mut sub = Paths { fn_mode: self.fn_mode, extra: self.extra, out: vec![] };
+                let mut all = sub.go(&l.body.stmts, false, String::new());
+                all.extend(sub.out.drain(..).filter(|x| !x.1.ends_with("/return")));
+                let every = !all.is_empty() && all.iter().all(|x| x.0);
+                vec![(p || every, d)]
+            }
             other => {
-                if diverges(other) {
+                if self.diverges(other) {
                     return vec![];
                 }
-                vec![(p || expr_progress(other), d)]
+                vec![(p || self.expr_progress(other), d)]
             }
         }
     }
-    let mut out = vec![];
-    let fall = go(stmts, false, String::new(), &mut out);
+}
+
+fn path_has_progress(stmts: &[syn::Stmt]) -> Vec<(bool, String)> {
+    let mut ps = Paths { fn_mode: false, extra: &[], out: vec![] };
+    let fall = ps.go(stmts, false, String::new());
+    let mut out = ps.out;
     out.extend(fall);
     out
+}
+
+/// Function-mode enumeration: every path to a normal return of `block`.
+fn fn_paths(block: &syn::Block, extra: &[&str]) -> Vec<(bool, String)> {
+    let mut ps = Paths { fn_mode: true, extra, out: vec![] };
+    let fall = ps.go(&block.stmts, false, String::new());
+    let mut out = ps.out;
+    out.extend(fall);
+    out
+}
+
+/// functions whose "consumes at least one character, emits a token, or fails" summary P3 derives from their bodies
+const SUMMARISED: &[(&str, &str, &[&str])] = &[
+    ("parser/src/lexer.rs", "consume_normal", &["emit", "consume_character"]),
+    ("parser/src/lexer.rs", "consume_character", &["emit"]),
+    ("parser/src/lexer.rs", "lex_number", &[]),
+    ("parser/src/lexer.rs", "lex_string", &[]),
+    ("parser/src/lexer.rs", "eat_single_char", &[]),
+    ("parser/src/string.rs", "parse_unicode_name", &[]),
+    ("parser/src/string.rs", "parse_escaped_char", &[]),
+    ("parser/src/string.rs", "parse_formatted_value", &[]),
+];
+
+/// consumers that consume only under a precondition on window[0]: every call site must sit under one of the
+/// listed guards (an enclosing `if` condition or match-arm pattern, compact text), which establishes it
+const PRECONDITIONED: &[(&str, &[&str], &str)] = &[
+    ("lex_identifier", &["self.is_identifier_start(c)"], "window[0] starts an identifier, so `while self.is_identifier_continuation()` runs at least once (start ⊆ continuation, C01.I2)"),
+    ("lex_number", &["'0'..='9'", "letSome('0'..='9')=self.window[1]"], "window[0] is a decimal digit (or '.' followed by one): radix_run(10) / the radix prefix consumes"),
+    ("lex_and_emit_comment", &["'#'", "Some('#')"], "window[0] is '#', which lex_comment's loop consumes first"),
+];
+
+fn guard_sites(file: &syn::File, callee: &str) -> Vec<(String, Vec<String>)> {
+    // (enclosing fn, guards) per call site `self.<callee>(..)`
+    struct V<'a> {
+        callee: &'a str,
+        stack: Vec<String>,
+        func: String,
+        out: Vec<(String, Vec<String>)>,
+    }
+    impl<'a, 'ast> syn::visit::Visit<'ast> for V<'a> {
+        fn visit_impl_item_fn(&mut self, f: &'ast syn::ImplItemFn) {
+            self.func = f.sig.ident.to_string();
+            self.stack.clear();
+            syn::visit::visit_impl_item_fn(self, f);
+        }
+        fn visit_expr_if(&mut self, i: &'ast syn::ExprIf) {
+            self.visit_expr(&i.cond);
+            self.stack.push(sm::tsc(&i.cond));
+            self.visit_block(&i.then_branch);
+            self.stack.pop();
+            if let Some((_, e)) = &i.else_branch {
+                self.visit_expr(e);
+            }
+        }
+        fn visit_arm(&mut self, a: &'ast syn::Arm) {
+            self.stack.push(sm::tsc(&a.pat));
+            syn::visit::visit_arm(self, a);
+            self.stack.pop();
+        }
+        fn visit_expr_method_call(&mut self, mc: &'ast syn::ExprMethodCall) {
+            if mc.method == self.callee && sm::tsc(&mc.receiver) == "self" {
+                self.out.push((self.func.clone(), self.stack.clone()));
+            }
+            syn::visit::visit_expr_method_call(self, mc);
+        }
+    }
+    use syn::visit::Visit;
+    let mut v = V { callee, stack: vec![], func: String::new(), out: vec![] };
+    v.visit_file(file);
+    v.out
+}
+
+fn fn_summaries(cx: &mut Ctx) {
+    let rule = "C03.P3";
+    cx.rule(rule, "consumer summaries: the functions the loop rule P1 credits as consuming (consume_normal, consume_character, lex_*, parse_* …) are themselves checked — every path through the body to a normal return passes a call that consumes a character (next_char, another summarised consumer) or, for consume_normal/consume_character, emits a token (which ends `while pending.is_empty()`); `return Err` / `Err(..)?` paths end the token stream; nested `while`/`for` loops are credited with zero iterations");
+    cx.floor(rule, 12);
+    for (rel, name, extra) in SUMMARISED {
+        let Ok(src) = sm::load(&cx.repo, rel) else {
+            cx.anchor_missing(rule, rel);
+            continue;
+        };
+        let mut found = false;
+        for i in src.impls() {
+            for it in &i.items {
+                if let syn::ImplItem::Fn(f) = it {
+                    if f.sig.ident == name {
+                        found = true;
+                        let paths = fn_paths(&f.block, extra);
+                        let stuck: Vec<String> = paths.iter().filter(|p| !p.0).map(|p| p.1.clone()).collect();
+                        if stuck.is_empty() {
+                            cx.ok(rule, &format!("{}: all {} normal-return paths consume or emit", name, paths.len()));
+                        } else {
+                            cx.fail(rule, &format!("{}/{}", rule, name), rel, &format!("{}: path(s) {:?} return normally without consuming a character or emitting a token: the caller's loop can spin forever", name, stuck));
+                        }
+                    }
+                }
+            }
+        }
+        if !found {
+            cx.anchor_missing(rule, &format!("{}::{}", rel, name));
+        }
+    }
+    if let Ok(lx) = sm::load(&cx.repo, "parser/src/lexer.rs") {
+        for (callee, guards, why) in PRECONDITIONED {
+            let sites = guard_sites(&lx.file, callee);
+            if sites.is_empty() {
+                cx.anchor_missing(rule, &format!("call sites of {}", callee));
+            }
+            for (n, (func, stack)) in sites.iter().enumerate() {
+                if stack.iter().any(|g| guards.iter().any(|w| g == w || g.split('|').any(|alt| alt == *w))) {
+                    cx.ok(rule, &format!("{} called from {} under its guard ({})", callee, func, why));
+                } else {
+                    cx.fail(rule, &format!("{}/precondition/{}/{}#{}", rule, callee, func, n + 1), &lx.rel, &format!("{} is called from {} without one of the guards {:?} that make it consume ({}); enclosing guards: {:?}", callee, func, guards, why, stack));
+                }
+            }
+        }
+    }
 }
 
 fn progress(cx: &mut Ctx) {
